@@ -1,6 +1,7 @@
 package wire
 
 import (
+	"os"
 	"github.com/jeroenrinzema/psql-wire/codes"
 	psqlerr "github.com/jeroenrinzema/psql-wire/errors"
 	"io"
@@ -1043,5 +1044,46 @@ func VerifH19c() {
 	}
 	if !vEqBytes(u1, u2) {
 		vReach("different-users")
+	}
+}
+
+// ---------------------------------------------------------------------------
+// H12t — ONE refused write during the start-up reply (C12, C02): exactly one
+// Write of the transport (the solver's choice among the writes that carry
+// AuthenticationOk, the ParameterStatus messages and ReadyForQuery) is refused
+// with nothing accepted — a deadline-kind, timeout or opaque error — and later
+// Writes would be accepted again. The start-up sequence has no user code between
+// its writes that could handle the error: the refused write ends it. The client
+// never receives a ReadyForQuery, what it did receive is well-formed, and the
+// session middleware does not run unless everything before it was delivered.
+// ---------------------------------------------------------------------------
+func VerifH12t() {
+	mw := 0
+	w := &vWorld{parseMenu: 2, execMenu: 2}
+	srv, err := NewServer(w.parse, MessageBufferSize(64),
+		SessionMiddleware(func(ctx context.Context) (context.Context, error) { mw++; return ctx, nil }))
+	vAssert("newserver-ok", err == nil)
+	conn := vNewConn(vCat(vStartup(vKV([]byte("user"), []byte("u"))), vMsgBytes('Q', vCStr([]byte("q"))), vMsgBytes('X', nil)))
+	conn.failWriteOnly = 1 + vChoose(vParam("WRITES", 6))
+	switch vChoose(3) {
+	case 0:
+		conn.failWriteErr = os.ErrDeadlineExceeded
+	case 1:
+		conn.failWriteErr = vTimeoutErr{}
+	default:
+		conn.failWriteErr = errVerifIO
+	}
+	srv.serve(context.Background(), conn) //nolint
+	types := vTypes(conn.out)
+	vAssert("wire-wellformed", vWireOK(conn.out))
+	if conn.failedWrites == 1 {
+		vAssert("no-ReadyForQuery-after-a-refused-start-up-write", vCount(types, 'Z') == 0)
+		vAssert("nothing-served-after-a-refused-start-up-write", len(w.events) == 0)
+		if vCount(types, 'S') < 4 {
+			vAssert("middleware-not-run-unless-the-parameters-were-delivered", mw == 0)
+		}
+		vReach("start-up-write-refused")
+	} else {
+		vAssert("healthy-start-up", vCount(types, 'Z') >= 1 && mw == 1)
 	}
 }
